@@ -130,6 +130,25 @@ theorem C17_shape_iff (a b : Int) : okPosIntPair (.list [.int a, .int b]) = true
 
 /-! ### what a successful build consists of -/
 
+theorem filter_sel_eq {β} (params : List (String × β)) (acc : String → Bool) :
+    params.filter (fun kv => ((params.map (·.1)).filter acc).contains kv.1) =
+      params.filter (fun kv => acc kv.1) := by
+  apply List.filter_congr
+  intro kv hkv
+  cases h : acc kv.1 with
+  | true =>
+    simp only [List.contains_eq_mem, List.mem_filter, List.mem_map, decide_eq_true_eq]
+    exact ⟨⟨kv, hkv, rfl⟩, h⟩
+  | false =>
+    simp only [List.contains_eq_mem, List.mem_filter, decide_eq_false_iff_not]
+    intro hh; rw [h] at hh; exact absurd hh.2 (by simp)
+
+theorem keys_filter_sel {β} (params : List (String × β)) (acc : String → Bool) :
+    (params.filter (fun kv => ((params.map (·.1)).filter acc).contains kv.1)).map (·.1) =
+      (params.map (·.1)).filter acc := by
+  rw [filter_sel_eq, List.filter_map]
+  rfl
+
 /-- a plain component (no nested components, no reserved conversions): the function registered
 under the given name, bound to exactly the accepted keywords among the given ones -/
 theorem C17_build_plain (r : Regs) (fuel : Nat) (kind : RegKind) (name : String) (params : List (String × Yaml))
@@ -137,8 +156,9 @@ theorem C17_build_plain (r : Regs) (fuel : Nat) (kind : RegKind) (name : String)
       "reward_function", "distance_function", "visibility_function", "area", "object_type", "colors"])
     (hcustom : isCustom name = false) (c : Comp)
     (h : buildComp r (fuel + 1) kind (.map (("name", .str name) :: params)) = .ok c) :
-    ∃ sig, factoryCheck (r.of kind) name (params.map (·.1)) = .ok (sig, match c with | .mk _ kws _ => kws) ∧
-      (match c with | .mk n _ subs => n = name ∧ subs = []) := by
+    ∃ sig, factoryCheck (r.of kind) name (params.map (·.1)) = .ok (sig, c.keys) ∧
+      (match c with | .mk n kws subs => n = name ∧ subs = [] ∧
+        kws = params.filter (fun kv => (sig.required ++ sig.optional).contains kv.1)) := by
   have hlk : ∀ key, key ∈ ["transition_functions", "reward_functions", "terminating_functions",
       "reward_function", "distance_function", "visibility_function", "area", "object_type", "colors"] →
       params.lookup key = none := by
@@ -172,7 +192,32 @@ theorem C17_build_plain (r : Regs) (fuel : Nat) (kind : RegKind) (name : String)
     rw [hfc] at h
     simp only [Except.ok.injEq] at h
     subst h
-    exact ⟨sig, rfl, rfl, by simp⟩
+    obtain ⟨_, _, _, hsel, _⟩ := C17_factory_ok _ _ _ _ _ hfc
+    subst hsel
+    refine ⟨sig, ?_, rfl, by simp, filter_sel_eq params _⟩
+    simp only [Comp.keys, keys_filter_sel]
+
+/-- **values are carried verbatim.**  In a plain component every accepted keyword that was given is
+bound to exactly the value given for it — whatever the value (`0`, `0.0`, `false`, `null` are values,
+not "left out") — and nothing else is bound. -/
+theorem C17_values_verbatim (r : Regs) (fuel : Nat) (kind : RegKind) (name : String) (params : List (String × Yaml))
+    (hplain : ∀ kv ∈ params, kv.1 ∉ ["name", "transition_functions", "reward_functions", "terminating_functions",
+      "reward_function", "distance_function", "visibility_function", "area", "object_type", "colors"])
+    (hcustom : isCustom name = false) (n : String) (kws : List (String × Yaml)) (subs : List Comp)
+    (h : buildComp r (fuel + 1) kind (.map (("name", .str name) :: params)) = .ok (.mk n kws subs)) :
+    ∃ sig, sig ∈ r.of kind ∧ sig.name = name ∧
+      ∀ k v, (k, v) ∈ kws ↔ ((k, v) ∈ params ∧ (k ∈ sig.required ∨ k ∈ sig.optional)) := by
+  obtain ⟨sig, hfc, hc⟩ := C17_build_plain r fuel kind name params hplain hcustom _ h
+  obtain ⟨hmem, hname, _⟩ := C17_factory_ok _ _ _ _ _ hfc
+  obtain ⟨_, _, hk⟩ := hc
+  refine ⟨sig, hmem, hname, ?_⟩
+  intro k v
+  rw [hk]
+  simp [List.mem_filter]
+
+/-- e.g. a living reward of `0.0` and an `absolute_counts` of `false` are what gets bound -/
+example : (buildComp Gen.regs 3 .reward (.map [("name", .str "living_reward"), ("reward", .float 0 1)])).toOption.map
+    (fun c => match c with | .mk _ kws _ => kws) = some [("reward", .float 0 1)] := by rfl
 
 /-! ### the shipped configurations, the packaged copies, the registered ids -/
 
